@@ -1179,12 +1179,30 @@ def rule_mean1(ctx, rels, scope=None, min_sites=0):
                 continue
             if scope is not None and f not in scope:
                 continue
+            # a literal divisor under `if X.shape[j] == <that literal>:`
+            # is the size of axis j of X
+            pinned = {}
+            for i_ in ast.walk(f.node):
+                if not (isinstance(i_, ast.If)
+                        and isinstance(i_.test, ast.Compare)
+                        and len(i_.test.ops) == 1
+                        and isinstance(i_.test.ops[0], ast.Eq)):
+                    continue
+                sz = size_of(i_.test.left)
+                cv = const_value(i_.test.comparators[0])
+                if sz is None or not isinstance(cv, int):
+                    continue
+                for st in i_.body:
+                    for n in ast.walk(st):
+                        if isinstance(n, ast.BinOp) \
+                                and const_value(n.right) == cv:
+                            pinned[id(n)] = sz
             for n in ast.walk(f.node):
                 if not (isinstance(n, ast.BinOp)
                         and isinstance(n.op, (ast.Div, ast.FloorDiv))):
                     continue
                 s = sum_of(n.left)
-                d = size_of(n.right)
+                d = size_of(n.right) or pinned.get(id(n))
                 if s is None or d is None or s[0] != d[0]:
                     continue
                 if not isinstance(s[1], int) or not isinstance(d[1], int):
@@ -1205,8 +1223,13 @@ def rule_mean1(ctx, rels, scope=None, min_sites=0):
                         "array of objects the midpoint is scaled by the "
                         "wrong count", instance=inst)
     if n_s < min_sites:
-        raise AnalysisError(f"MEAN1: {n_s} mean idiom(s) found, {min_sites} "
-                            "confirmed by hand (stale table)")
+        # the anchors exist (module parsed); fewer `sum / size` idioms than
+        # were confirmed by hand means some were rewritten in another form,
+        # which this rule does not judge
+        r.note("MEAN1", ",".join(rels), "mean idioms",
+               f"{n_s} `X.sum(axis) / size` idiom(s) found, {min_sites} "
+               "confirmed by hand on the pinned tree: the others are "
+               "written in a form this rule does not read (not judged)")
     return n_s
 
 
@@ -1739,3 +1762,84 @@ def rule_bfs2(ctx):
                "it can be queued twice") + "): for {0: {'a': 0}} with k = 2 "
             "the loop edge is stored twice and automaton_accepted returns "
             "every word twice", instance="automaton_multiple")
+
+
+# ---------------------------------------------------------------------------
+def rule_mean2(ctx):
+    r = ctx.r
+    r.rule("MEAN2", "in the sphere / circle parameter computations the "
+                    "arithmetic mean of points of a sphere is used as (the "
+                    "Klein midpoint of / the centre of) that sphere only "
+                    "where the number of points is two: for three or more "
+                    "ideal points the mean is neither the point of the flat "
+                    "closest to the origin nor the circumcentre, and the "
+                    "reported sphere misses the subspace's ideal points")
+    m = ctx.p.module_by_rel(HYP)
+    roots = [f for f in ctx.p.all_functions if f.module is m
+             and f.node.name in ("sphere_parameters", "circle_parameters",
+                                 "boundary_sphere_parameters")]
+    helpers = []
+    for f in roots:
+        for c in ast.walk(f.node):
+            if isinstance(c, ast.Call) and isinstance(c.func, ast.Name):
+                g = next((g for g in ctx.p.all_functions if g.module is m
+                          and g.parent is None and g.cls is None
+                          and g.node.name == c.func.id), None)
+                if g is not None and g not in helpers:
+                    helpers.append(g)
+    two_row = {"Geodesic", "Segment", "PointPair", "Horosphere",
+               "HorosphereArc", "BoundaryArc"}
+    sites = 0
+    for f in roots + helpers:
+        parents = f.module.parents
+        for n in ast.walk(f.node):
+            mean = None
+            if isinstance(n, ast.BinOp) and isinstance(n.op, ast.Div):
+                for c in ast.walk(n.left):
+                    if isinstance(c, ast.Call) and (
+                            (isinstance(c.func, ast.Attribute)
+                             and c.func.attr == "sum")
+                            or dotted(c.func) == "np.sum") and any(
+                            k.arg == "axis" and dotted(k.value) == "-2"
+                            for k in c.keywords):
+                        mean = n
+            if isinstance(n, ast.Call) and (
+                    (isinstance(n.func, ast.Attribute)
+                     and n.func.attr == "mean")
+                    or dotted(n.func) == "np.mean") and any(
+                    k.arg == "axis" and dotted(k.value) == "-2"
+                    for k in n.keywords):
+                mean = n
+            if mean is None:
+                continue
+            sites += 1
+            r.analysed(f)
+            # guarded by `<x>.shape[-2] == 2`?
+            cur, guarded = mean, False
+            while cur is not f.node:
+                par = parents[cur]
+                if isinstance(par, ast.If) and any(
+                        cur is x for x in par.body):
+                    t = dotted(par.test)
+                    if "shape[-2]" in t and "== 2" in t:
+                        guarded = True
+                cur = par
+            fixed = f.cls is not None and f.cls.name in two_row
+            inst = f"{f.qualname}:row-mean"
+            if guarded or fixed:
+                r.ok("MEAN2", inst, loc(f, mean), dotted(mean)[:80],
+                     "two points: the mean is the midpoint of the chord"
+                     if guarded else "the class's unit has exactly two rows")
+            else:
+                r.violation(
+                    "MEAN2", f"{f.fq}|{dotted(mean)[:60]}", loc(f, mean),
+                    dotted(mean)[:120],
+                    "the mean over the row axis is taken for any number of "
+                    "rows: for a subspace spanned by three or more ideal "
+                    "points (a plane in H^3, any hyperplane in dimension "
+                    ">= 3) it is not the centre of the flat, and the sphere "
+                    "returned does not pass through the ideal points",
+                    instance=inst)
+    if sites == 0:
+        r.ok("MEAN2", "hyperbolic.py", HYP, "",
+             "no row mean in the sphere / circle computations")
